@@ -165,7 +165,9 @@ def check_yuv_output(ck, key, ctx, it, st, yuv, in_dims, in_name, ssx, ssy, loop
         if j == 0 and extra:
             probs.append(f"luma store is conditional: {extra[0]}")
         if j > 0:
-            ok, why = write_on_change(extra, s, loops, it)
+            want1 = expected_plane_index(g, 1, y, x, ssx, ssy)
+            colx = X.binop('shr', x, U(ssx)) if ssx else x
+            ok, why = write_on_change(extra, s, loops, it, pc, want1, g[1]['stride'], colx)
             if not ok: probs.append(why)
         if probs:
             ck.ob(pk + '/kernel', 'REFUTED' if not any('lemma' in p_ for p_ in probs) else 'UNDECIDED', '; '.join(probs[:3]))
@@ -181,10 +183,12 @@ def _is_range(cnd, qvars):
                 return True
     return False
 
-def write_on_change(extra, s, loops, it):
-    """side conditions of the lemma 'the first visit of every position executes the
-    guarded block':  guard is  pos != L  for a loop-carried local L that starts at a value
-    no position can take and is assigned only  L = pos  inside the guarded block."""
+def write_on_change(extra, s, loops, it, pc=(), want1=None, stride1=None, col=None):
+    """side conditions of the lemma 'the first visit of every position executes the guarded block':
+    the guard is  P != L  for a loop-carried local L that (a) starts at a value no position can take,
+    (b) is assigned only  L = P  inside the guarded block, and (c) P determines the written position:
+    P is the store index itself, or P is the index of the sibling chroma plane (same row/column
+    with that plane's stride) and that index is injective in (row, column) - column < stride."""
     if not extra:
         return True, ''
     if len(extra) != 1 or extra[0].op != 'ne':
@@ -193,19 +197,85 @@ def write_on_change(extra, s, loops, it):
     hv, pos = (a, b) if a.op == 'sym' and '@loop' in a.args[0] else (b, a)
     if not (hv.op == 'sym' and '@loop' in hv.args[0]):
         return False, 'lemma side condition: guard does not compare with a loop-carried local'
-    for L in loops:
-        for l, cinfo in L.carried.items():
-            if cinfo['hv'] is hv:
-                ends = cinfo['ends']
-                for guard, endv in ends:
-                    taken = any(c is extra[0] for c in guard)
-                    if taken and endv is not pos:
-                        return False, 'lemma side condition: the carried local is not set to the written position'
-                    if not taken and endv is not hv:
-                        return False, 'lemma side condition: the carried local changes outside the guarded block'
-                # outer loop carries it too: its pre-loop value must be impossible as a position
-                return True, ''
-    return False, 'lemma side condition: carried local not found in the loop summaries'
+    # (c) the compared quantity determines the written position
+    if not same_poly(pos, s.index, pc):
+        if want1 is None or not same_poly(pos, want1, pc):
+            return False, f"lemma side condition: the guard compares {str(pos)[:80]}, which is neither the written position nor the sibling plane's position of the same sample - equal values of it do not imply the same sample"
+        from engine.prover import Prover
+        goal = X.binop('lt', col, stride1)
+        P = Prover(tuple(pc) + tuple(X.binop('lt', q, hi) for q, lo, hi in s.qvars))
+        ok = P.prove(goal)
+        if not ok and P.shift_atoms:
+            P.add_cuts(); ok = P.prove(goal)
+        if not ok:
+            return False, 'lemma side condition: the tracked position of the sibling plane is not shown injective (column < stride not certified)'
+    def carried(hvsym):
+        for L in loops:
+            for l, cinfo in L.carried.items():
+                if cinfo['hv'] is hvsym:
+                    return cinfo
+        return None
+    cinfo = carried(hv)
+    if cinfo is None:
+        return False, 'lemma side condition: carried local not found in the loop summaries'
+    for guard, endv in cinfo['ends']:
+        taken = any(c is extra[0] for c in guard)
+        if taken and endv is not pos:
+            return False, 'lemma side condition: the carried local is not set to the compared position'
+        if not taken and endv is not hv:
+            return False, 'lemma side condition: the carried local changes outside the guarded block'
+    # (a) initial value: follow the chain of enclosing loops down to a constant no position can take
+    pre = cinfo['pre']
+    depth = 0
+    while isinstance(pre, X.E) and pre.op == 'sym' and '@loop' in pre.args[0] and depth < 4:
+        outer = carried(pre)
+        if outer is None:
+            return False, 'lemma side condition: initial value of the carried local not found'
+        inner_hv = hv if depth == 0 else prev_hv
+        for guard, endv in outer['ends']:
+            if endv is not inner_hv:
+                return False, 'lemma side condition: the enclosing loop assigns the carried local'
+        prev_hv = pre
+        pre = outer['pre']
+        depth += 1
+    if not (isinstance(pre, X.E) and pre.is_const and int(pre.val) >= (1 << 62)):
+        return False, f"lemma side condition: the carried local starts at {pre}, which may be a valid position"
+    return True, ''
+
+def conversion_structure(ck, ctx, conv, T, ssx, ssy, key, base_kernels=None):
+    """the C11 rules for one conversion / sample type / subsampling (also used by C09 for the two long conversions)"""
+    c = ctx.crate
+    it, marks, results = run_validated(ctx, conv, T, 'BT709', 'SRGB', 'BT2020', bd=(8 if T == 'u8' else 10), ssx=ssx, ssy=ssy)
+    ck.count('conversions_interpreted')
+    src_kind, how = VALIDATED[conv]
+    for outs in results:
+        oks = [(s, v) for s, v in outs if is_ok(c, v)] if conv in PAIR_FALLIBLE else [(s, v) for s, v in outs]
+        if len(oks) != 1:
+            ck.ob(key, 'UNDECIDED', f"{len(oks)} successful outcomes"); continue
+        s, v = oks[0]
+        img = v.fields[0] if conv in PAIR_FALLIBLE else v
+        # borrowed sources untouched
+        if src_kind == 'yuv':
+            yv = it.input_yuv
+            in_dims = (X.sym(X.USIZE, 'yuv.data.planes[0].cfg.width'), X.sym(X.USIZE, 'yuv.data.planes[0].cfg.height'))
+            touched = [b.name for o, b in s.heap.items() if isinstance(b, Buf) and b.name.startswith('yuv.data') and b.stores]
+            ck.ob(key + '/borrowed', 'PROVED' if not touched else 'REFUTED', 'no store into the borrowed source' if not touched else f"the borrowed source buffer {touched[0]} is written", nontrivial=False)
+            check_vec_output(ck, key, ctx, it, s, img, in_dims, ('yuv', yv), ssx, ssy, s.pc)
+        else:
+            nm = src_kind.lower()
+            in_dims = (X.sym(X.USIZE, f'{nm}.width'), X.sym(X.USIZE, f'{nm}.height'))
+            if conv.endswith('->Yuv'):
+                if how == 'ref_cfg':
+                    touched = [b.name for o, b in s.heap.items() if isinstance(b, Buf) and b.name.startswith(f'{nm}.data') and b.stores]
+                    ck.ob(key + '/borrowed', 'PROVED' if not touched else 'REFUTED', 'no store into the borrowed source' if not touched else f"the borrowed source {touched[0]} is written", nontrivial=False)
+                ks = check_yuv_output(ck, key, ctx, it, s, img, in_dims, f'{nm}.data', ssx, ssy, it.rec.loops, s.pc)
+                if ks and len(ks) == 3 and base_kernels is not None:
+                    bk = base_kernels.setdefault((conv, T), ks)
+                    same = ks == bk
+                    ck.ob(key + '/independent-of-subsampling', 'PROVED' if same else 'REFUTED',
+                          'luma and chroma kernels are the same expressions as for 4:4:4' if same else 'the per-sample kernels differ from the 4:4:4 ones')
+            else:
+                check_vec_output(ck, key, ctx, it, s, img, in_dims, ('vec', f'{nm}.data'), 0, 0, s.pc)
 
 def run(tier):
     ck = Check('C11', tier, 'proof', 'loop store summaries from abstract interpretation of MIR + structural rules on index polynomials, kernel dependence, coverage; effect analysis of the resolved call graph')
@@ -224,37 +294,7 @@ def run(tier):
             for (ssx, ssy) in sslist:
                 key = f"C11/{conv}/{T}/ss{ssx}{ssy}"
                 try:
-                    it, marks, results = run_validated(ctx, conv, T, 'BT709', 'SRGB', 'BT2020', bd=(8 if T == 'u8' else 10), ssx=ssx, ssy=ssy)
-                    ck.count('conversions_interpreted')
-                    src_kind, how = VALIDATED[conv]
-                    for outs in results:
-                        oks = [(s, v) for s, v in outs if is_ok(c, v)] if conv in PAIR_FALLIBLE else [(s, v) for s, v in outs]
-                        if len(oks) != 1:
-                            ck.ob(key, 'UNDECIDED', f"{len(oks)} successful outcomes"); continue
-                        s, v = oks[0]
-                        img = v.fields[0] if conv in PAIR_FALLIBLE else v
-                        # borrowed sources untouched
-                        if src_kind == 'yuv':
-                            yv = it.input_yuv
-                            in_dims = (X.sym(X.USIZE, 'yuv.data.planes[0].cfg.width'), X.sym(X.USIZE, 'yuv.data.planes[0].cfg.height'))
-                            touched = [b.name for o, b in s.heap.items() if isinstance(b, Buf) and b.name.startswith('yuv.data') and b.stores]
-                            ck.ob(key + '/borrowed', 'PROVED' if not touched else 'REFUTED', 'no store into the borrowed source' if not touched else f"the borrowed source buffer {touched[0]} is written", nontrivial=False)
-                            check_vec_output(ck, key, ctx, it, s, img, in_dims, ('yuv', yv), ssx, ssy, s.pc)
-                        else:
-                            nm = src_kind.lower()
-                            in_dims = (X.sym(X.USIZE, f'{nm}.width'), X.sym(X.USIZE, f'{nm}.height'))
-                            if conv.endswith('->Yuv'):
-                                if how == 'ref_cfg':
-                                    touched = [b.name for o, b in s.heap.items() if isinstance(b, Buf) and b.name.startswith(f'{nm}.data') and b.stores]
-                                    ck.ob(key + '/borrowed', 'PROVED' if not touched else 'REFUTED', 'no store into the borrowed source' if not touched else f"the borrowed source {touched[0]} is written", nontrivial=False)
-                                ks = check_yuv_output(ck, key, ctx, it, s, img, in_dims, f'{nm}.data', ssx, ssy, it.rec.loops, s.pc)
-                                if ks and len(ks) == 3:
-                                    bk = base_kernels.setdefault((conv, T), ks)
-                                    same = ks == bk
-                                    ck.ob(key + '/independent-of-subsampling', 'PROVED' if same else 'REFUTED',
-                                          'luma and chroma kernels are the same expressions as for 4:4:4' if same else 'the per-sample kernels differ from the 4:4:4 ones')
-                            else:
-                                check_vec_output(ck, key, ctx, it, s, img, in_dims, ('vec', f'{nm}.data'), 0, 0, s.pc)
+                    conversion_structure(ck, ctx, conv, T, ssx, ssy, key, base_kernels)
                 except Unsupported as ex:
                     ck.ob(key, 'UNDECIDED', f"analysis lost: {ex}")
     # purity / determinism
